@@ -8,6 +8,7 @@ use crate::util::Rng;
 pub struct TextPlan {
     pub full_len: u32,
     pub reduced_len: u32,
+    pub reduced2_len: u32,
     pub explore: u64,
     pub random: u64,
 }
@@ -18,6 +19,7 @@ impl TextPlan {
             TextPlan {
                 full_len: 3,
                 reduced_len: 5,
+                reduced2_len: 6,
                 explore: 40_000,
                 random: 40_000,
             }
@@ -25,6 +27,7 @@ impl TextPlan {
             TextPlan {
                 full_len: 3,
                 reduced_len: 6,
+                reduced2_len: 7,
                 explore: 1_000_000,
                 random: 2_000_000,
             }
@@ -36,11 +39,14 @@ impl TextPlan {
     fn n_reduced(&self) -> u64 {
         count(REDUCED.len() as u64, self.reduced_len) * PREFIXES.len() as u64
     }
+    fn n_reduced2(&self) -> u64 {
+        count(REDUCED2.len() as u64, self.reduced2_len)
+    }
     fn n_nest(&self) -> u64 {
         (22 * NEST_DEPTHS.len()) as u64
     }
     pub fn len(&self) -> u64 {
-        self.n_full() + self.n_reduced() + self.n_nest() + self.explore + self.random
+        self.n_full() + self.n_reduced() + self.n_reduced2() + self.n_nest() + self.explore + self.random
     }
     /// Texts of case idx (one or several files) and the family they come from.
     pub fn texts(&self, seed: u64, idx: u64) -> (Vec<String>, &'static str) {
@@ -55,6 +61,10 @@ impl TextPlan {
             return (vec![format!("{p}{}", sequence(&REDUCED, i / 3))], "tok-reduced");
         }
         i -= self.n_reduced();
+        if i < self.n_reduced2() {
+            return (vec![format!("{PREFIX2}{}", sequence(&REDUCED2, i))], "tok-reduced2");
+        }
+        i -= self.n_reduced2();
         if i < self.n_nest() {
             let fam = i as usize / NEST_DEPTHS.len();
             let d = NEST_DEPTHS[i as usize % NEST_DEPTHS.len()];
